@@ -17,6 +17,14 @@ def _one(d):
         t = recorder.record_call(p["fun"], p["x0"], bounds=p["bounds"], constraints=p["constraints"],
                                  callback=p["callback"], options=p["options"], constants=p.get("constants"), want=want,
                                  timeout=timeout, meta=p["meta"])
+        if t.get("exc") == "Hang":
+            # runs are deterministic: a run that really never returns does so again.  Rebuilt from the
+            # descriptor (fresh callbacks / fault counters) and repeated with three times the CPU budget;
+            # the repetition is the execution that is validated.
+            p = corpus.build(d)
+            t = recorder.record_call(p["fun"], p["x0"], bounds=p["bounds"], constraints=p["constraints"],
+                                     callback=p["callback"], options=p["options"], constants=p.get("constants"),
+                                     want=want, timeout=3 * timeout, meta=p["meta"])
     except BaseException as ex:  # recorder failure: machinery, reported by the caller
         return {"hdr": None, "ev": [], "err": f"{type(ex).__name__}: {ex}", "did": p["meta"]["did"]}
     return {"hdr": t["hdr"], "ev": t["ev"], "sub": t.get("sub", [])}
